@@ -9,9 +9,12 @@ OPTIONAL value is wrapped -- `[]` is None, `[v]` is the value v -- and every fie
     date     int                   datetime.date.toordinal()
     amount   {"n": number, "c": "USD"}
     cost     {"n": number, "c": "USD", "date": []|[date], "label": []|[str]}
-    MV       {"t": "str|int|dec|date|bool|amount|null", "s": str, "n": number}    one metadata value:
-             str -> s; int/dec -> n; date -> n = [ordinal, 1]; bool -> n = [0|1, 1]; amount -> s = currency, n = number
-    meta     [[key, MV], ...]      sorted by key, keys distinct; for directives it includes "filename" and "lineno"
+    MV       {"t": "str|int|dec|date|bool|amount|map|null", "s": str, "n": number}    one metadata value:
+             str -> s; int/dec -> n; date -> n = [ordinal, 1]; bool -> n = [0|1, 1]; amount -> s = currency, n = number;
+             map (a dictionary str -> Decimal, Beancount's __tolerances__) -> s = "CUR=num/den;..." sorted by key
+    meta     [[key, MV], ...]      sorted by key, keys distinct; for directives it includes "filename" and "lineno";
+                                   EVERY key of the dictionary: the keys Beancount itself writes while booking /
+                                   interpolating / in plugins (__tolerances__, __automatic__, __residual__ ...) too
     posting  {"acct": str, "u": amount, "cost": []|[cost], "price": []|[amount], "flag": []|[str], "meta": []|[meta]}
     D        {"k": kind, "date": date, "meta": meta, ...kind specific fields}
       txn        flag str, payee []|[str], narration str, tags []|[[str..]], links []|[[str..]], postings [posting..]
@@ -148,6 +151,9 @@ def abs_mv(v):
         return {'t': 'date', 's': '', 'n': [v.toordinal(), 1]}
     if isinstance(v, amount_mod.Amount):
         return {'t': 'amount', 's': v.currency, 'n': abs_num(v.number)}
+    if isinstance(v, dict) and all(isinstance(k, str) and k and '=' not in k and ';' not in k for k in v):
+        # a dictionary of numbers (the inferred tolerances booking leaves on every transaction)
+        return {'t': 'map', 's': ';'.join('%s=%d/%d' % ((k,) + tuple(abs_num(v[k]))) for k in sorted(v)), 'n': z}
     raise OutOfDomain('metadata value %r' % (v,))
 
 
@@ -167,19 +173,24 @@ def mv_of(m):
         return date_of(m['n'][0])
     if t == 'amount':
         return amount_mod.Amount(num_of(m['n']), m['s'])
+    if t == 'map':
+        out = {}
+        for item in (m['s'].split(';') if m['s'] else []):
+            k, _, frac = item.partition('=')
+            num, _, den = frac.partition('/')
+            out[k] = num_of([int(num), int(den)])
+        return out
     raise ValueError(t)
 
 
 def abs_meta(meta):
-    """dict -> [[key, MV]...] sorted by key (keys starting with '__' are loader-internal and dropped)"""
+    """dict -> [[key, MV]...] sorted by key -- every key, the double-underscore keys Beancount writes itself included"""
     if not isinstance(meta, dict):
         raise OutOfDomain('meta %r' % (meta,))
     out = []
     for k in sorted(meta):
         if not isinstance(k, str):
             raise OutOfDomain('metadata key %r' % (k,))
-        if k.startswith('__'):
-            continue
         out.append([k, abs_mv(meta[k])])
     return out
 
@@ -447,6 +458,19 @@ def random_ledger(rng, n, direct=True, start=datetime.date(2020, 1, 1), accounts
         keys = rng.sample(KEYS, rng.randint(1, 4))
         return [(k, _rand_mv(rng, k, allow_null=direct, printable=not direct)) for k in keys]
 
+    def own_meta(kind):
+        """the keys Beancount writes itself (booking: __tolerances__ on transactions, interpolation: __automatic__ /
+        __residual__ on postings, plugins: any __key__ on any directive) -- part of the dictionaries the tables present;
+        direct construction only: the printer does not print them (loaded ledgers get theirs from the loader)"""
+        if not direct or rng.random() > 0.3:
+            return []
+        if kind == 'posting':
+            return [('__automatic__', True)] + ([('__residual__', True)] if rng.random() < 0.2 else [])
+        if kind == 'txn':
+            tol = {c: D(1).scaleb(-rng.randint(1, 4)) * rng.choice([1, 5]) for c in rng.sample(CURRENCIES, rng.randint(0, 2))}
+            return [('__tolerances__', tol)] + ([('__automatic__', False)] if rng.random() < 0.15 else [])
+        return [('__implicit_prices__', 'from_price')]
+
     day = [start]
 
     def next_date():
@@ -464,7 +488,7 @@ def random_ledger(rng, n, direct=True, start=datetime.date(2020, 1, 1), accounts
                 cur = []
             if not direct:
                 cur = []
-            out.append({'k': 'open', 'date': start.toordinal(), 'meta': meta(user_meta(0.5)), 'account': a,
+            out.append({'k': 'open', 'date': start.toordinal(), 'meta': meta(user_meta(0.5) + own_meta('open')), 'account': a,
                         'currencies': sorted(cur), 'booking': booking})
             opened.append(a)
     if not opened:
@@ -476,7 +500,7 @@ def random_ledger(rng, n, direct=True, start=datetime.date(2020, 1, 1), accounts
         opened = accounts[:2]
     for c in CURRENCIES:
         if rng.random() < 0.6:
-            out.append({'k': 'commodity', 'date': start.toordinal(), 'meta': meta(user_meta(0.7)), 'currency': c})
+            out.append({'k': 'commodity', 'date': start.toordinal(), 'meta': meta(user_meta(0.7) + own_meta('commodity')), 'currency': c})
     closed = set()
     guard = 0
     while len(out) < n and guard < 10 * n + 50:
@@ -508,7 +532,7 @@ def random_ledger(rng, n, direct=True, start=datetime.date(2020, 1, 1), accounts
                 acct = rng.choice(live)
                 kind = rng.random()
                 flag = [] if rng.random() < 0.8 else [rng.choice(['!', '*', 'M'])]
-                pm = [meta(user_meta(0.35))] if (not direct or rng.random() < 0.8) else []
+                pm = [meta(user_meta(0.35) + own_meta('posting'))] if (not direct or rng.random() < 0.8) else []
                 if not direct and j == npost - 1:
                     # balancing posting
                     amt = -total if total != 0 else D(1)
@@ -548,7 +572,7 @@ def random_ledger(rng, n, direct=True, start=datetime.date(2020, 1, 1), accounts
             payee = [] if rng.random() < 0.4 else [rng.choice(['Cafe', 'Landlord', 'ACME', ''] if direct
                                                               else ['Cafe', 'Landlord', 'ACME'])]
             narr = rng.choice(['lunch', 'rent', 'buy', ''])
-            out.append({'k': 'txn', 'date': next_date(), 'meta': meta(user_meta(0.4)),
+            out.append({'k': 'txn', 'date': next_date(), 'meta': meta(user_meta(0.4) + own_meta('txn')),
                         'flag': rng.choice(['*', '*', '!']), 'payee': payee, 'narration': narr, 'tags': tags,
                         'links': links, 'postings': posts})
         elif r < 0.62 and pads and len(live) >= 2:
@@ -573,7 +597,7 @@ def random_ledger(rng, n, direct=True, start=datetime.date(2020, 1, 1), accounts
             out.append({'k': 'event', 'date': next_date(), 'meta': meta(user_meta(0.3)),
                         'type': rng.choice(['location', 'employer']), 'description': rng.choice(['Paris', 'ACME', ''])})
         elif r < 0.84:
-            out.append({'k': 'price', 'date': next_date(), 'meta': meta(user_meta(0.3)),
+            out.append({'k': 'price', 'date': next_date(), 'meta': meta(user_meta(0.3) + own_meta('price')),
                         'currency': rng.choice(['HOOL', 'EUR']), 'amount': {'n': abs_num(abs(_rand_num(rng))), 'c': 'USD'}})
         elif r < 0.88:
             tl = ([], []) if rng.random() < 0.5 else ([sorted(rng.sample(TAGS, 2))], [[]])
